@@ -69,7 +69,22 @@ func gen(s pbt.Src, thorough bool) Case {
 	if thorough {
 		max = 300
 	}
+	if s.Intn(12) == 0 {
+		// a large cache: capacities around powers of two and a few hundred to a few thousand operations, so that it fills up and evicts
+		c.Cap = []int{31, 32, 33, 63, 64, 65, 100, 255, 256, 257, 1000}[s.Intn(11)]
+		nkeys = c.Cap + 1 + s.Intn(c.Cap/2+2)
+		max = c.Cap
+	}
+	big := c.Cap > 16
 	c.Ops = pbt.Seq(s, 0, max, func(s pbt.Src) Op { return genOp(s, nkeys) })
+	if big {
+		// fill the cache first (keys in a stride order), then the random operations
+		fill := make([]Op, 0, c.Cap+len(c.Ops))
+		for i := 0; i < c.Cap; i++ {
+			fill = append(fill, Op{Kind: 0, Key: (i * 7) % c.Cap})
+		}
+		c.Ops = append(fill, c.Ops...)
+	}
 	return c
 }
 
@@ -295,7 +310,7 @@ func TestProp(t *testing.T) {
 		&pbt.Check[Case]{
 			Name: "lru",
 			Rule: "operation sequences (Add/Get/Remove x key, GetOldest, GetYoungest, RemoveOldest, RemoveYoungest, Flush) against a recency-list model; " +
-				"enumerated: every sequence up to length 4 (thorough 5) over keys 0..3 (0..4) for every capacity 1..4; random: capacity 1..16, up to 120 (300) operations. " +
+				"enumerated: every sequence up to length 4 (thorough 5) over keys 0..3 (0..4) for every capacity 1..4; random: capacity 1..16, up to 120 (300) operations; one case in twelve: capacity 31..1000 (around powers of two), filled first, then up to capacity further operations. " +
 				"Non-trivial = an eviction happened, or a GetOldest/RemoveYoungest was followed by a later Add/Get. Distinct = enumerated cases (injective encoding) + hash-distinct random cases outside the enumerated scope.",
 			Enum: enum, Gen: gen, Prop: prop, OutOfEnum: outOfEnum,
 			RapidQuick: 1500, RapidThorough: 20000,
